@@ -45,6 +45,16 @@ run $S/C15b/patch.diff C15 C08
 run $S/C16b/patch.diff C16
 run $S/C19b/patch.diff C19
 run $S/C20b/patch.diff C20
+run $S/C04b/patch.diff C04 C01 C02
+run $S/C08b/patch.diff C08
+run $S/C09b/patch.diff C09
+run $S/C10b/patch.diff C10
+run $S/C11b/patch.diff C11
+run $S/C12b/patch.diff C12 C10
+run $S/C13b/patch.diff C13
+run $S/C14b/patch.diff C14
+run $S/C17b/patch.diff C17
+run $S/C18b/patch.diff C18
 run $S/extra/m1-linkttl.diff C01
 run $S/extra/m2-cachekey-format.diff C12
 run $S/extra/m3-cacheadd-nolock.diff C14 C12
